@@ -206,6 +206,20 @@ pub fn run_case(sc: &dyn Scenario, case: &Case) -> Outcome {
     }
 }
 
+/// Execute a case in a process that has already executed it once.
+///
+/// Process-wide lazy statics (a `OnceLock<HashSet>`, a lazily compiled regex …) are built
+/// by whichever run touches them first, and building them draws `RandomState` keys on the
+/// run's thread, which shifts the hash seeds of the maps that run creates afterwards. The
+/// outcome of a *first* execution can therefore differ (in hash-order-dependent detail)
+/// from every later execution of the same case. The authoritative outcome of a case is
+/// defined as that of a repeat execution: replay, `--one`, the determinism self-test and
+/// the confirmation of every violation use this.
+pub fn run_case_warm(sc: &dyn Scenario, case: &Case) -> Outcome {
+    let _ = run_case(sc, case);
+    run_case(sc, case)
+}
+
 // ---------------------------------------------------------------------------------
 // Known findings
 
@@ -386,7 +400,11 @@ fn worker_main(sc: &dyn Scenario, a: &Args) -> i32 {
             break;
         }
         let case = make_case(sc, a.seed, idx, a.tier);
-        let o = run_case(sc, &case);
+        let mut o = if a.emit_hashes { run_case_warm(sc, &case) } else { run_case(sc, &case) };
+        if !o.violations.is_empty() && !a.emit_hashes {
+            // confirm on a repeat execution (see run_case_warm); the repeat is authoritative
+            o = run_case(sc, &case);
+        }
         r.runs += 1;
         r.evaluations += o.evaluations.max(1);
         r.steps += o.steps;
@@ -500,7 +518,7 @@ fn replay_main(sc: &dyn Scenario, a: &Args, file: &str) -> i32 {
             return 2;
         }
     };
-    let o = run_case(sc, &case);
+    let o = run_case_warm(sc, &case);
     let want = case.violation.as_ref().map(|v| v.signature.clone());
     let findings = if a.ignore_known { Findings::default() } else { load_findings(sc.id()) };
     println!("replay {} events={} state_hash={:016x} steps={}", file, case.events.len(), o.state_hash, o.steps);
@@ -723,7 +741,7 @@ pub fn main_for(sc: &dyn Scenario, a: &Args) -> i32 {
     if let Some(idx) = a.one {
         install_panic_hook();
         let case = make_case(sc, a.seed, idx, a.tier);
-        let o = run_case(sc, &case);
+        let o = run_case_warm(sc, &case);
         println!("{}", serde_json::to_string_pretty(&case).unwrap());
         println!("steps={} nontrivial={} probes={:?} faults={:?}", o.steps, o.nontrivial, o.probes, o.faults);
         for v in &o.violations {
